@@ -237,7 +237,9 @@ class ImplSession:
         return [enc_dstate(d), d.schedule.is_complete(), d.schedule.makespan(),
                 d.schedule.num_scheduled_operations, subs,
                 [enc_obs(o, d) for o in self.objs] if self.env is None else [],
-                deep_digest(self), list(self.__dict__.get("count_problems", []))]
+                deep_digest(self), list(self.__dict__.get("count_problems", [])),
+                # what the last env.step of this episode returned as (terminated, truncated)
+                list(self.__dict__.get("step_flags", []))]
 
     def query(self, q, arg):
         d = self.dispatcher
@@ -304,10 +306,12 @@ class ImplSession:
                 out = self.query(ev[1], ev[2])
             elif tag == 2:
                 del self.calls[:]
-                if self.env is not None:
+                if self.env is not None and not (len(ev) > 1 and ev[1] == 1):
                     self.env.reset()
                 else:
+                    # (in an environment session [2, 1] is dispatcher.reset() on the environment's public dispatcher)
                     d.reset()
+                self.step_flags = []
                 out = self.notified()
             elif tag == 3:
                 if len(ev) > 2 and ev[2] == 1:
@@ -397,6 +401,7 @@ class ImplSession:
             elif tag == 8:
                 del self.calls[:]
                 self.last_step = self.env.step((ev[1], ev[2]))
+                self.step_flags = [bool(self.last_step[2]), bool(self.last_step[3])]
                 out = self.notified()
             else:
                 raise ValueError(tag)
